@@ -36,7 +36,7 @@ func c14Zoo() []zoo.Named {
 		zoo.Named{Name: "error-result", V: flyt.NewErrorResult(fmt.Errorf("e"))}, zoo.Named{Name: "zero-result", V: flyt.Result{}}, zoo.Named{Name: "ptr-result", V: &flyt.Result{}})
 }
 
-var storeKeys = []string{"", "a", "b", "ключ", "k\x00z", "日本語", "a b", "A", "é", "é"}
+var storeKeys = []string{"", "a", "b", "ключ", "k\x00z", "日本語", "a b", "A", "é", "é", "__flyt.state", "__flyt.", "_private", ".hidden", "flyt.internal"} // (the last five: names that LOOK reserved are names like any other)
 
 type snapshot struct {
 	m      map[string]any // what the store handed out (GetAll) — nil for Keys snapshots
@@ -210,7 +210,22 @@ func runStoreCaseProg(cs *StoreCase, z []zoo.Named, probe storeProbe, prog *atom
 				var sl []float32
 				_ = s.Bind(k, &sl)
 				_ = s.Bind("never-set", &t)
+				// the Or-variants with non-nil defaults, on this key and on a key that was never set
+				for _, kk := range []string{k, "never-set"} {
+					_ = s.GetMapOr(kk, map[string]any{"default": true})
+					_ = s.GetSliceOr(kk, []any{"default"})
+					_ = s.GetStringOr(kk, "default")
+					_ = s.GetIntOr(kk, 7)
+					_ = s.GetFloat64Or(kk, 7.5)
+					_ = s.GetBoolOr(kk, true)
+				}
+				if s.Has("never-set") {
+					panic("never-set") // (re-raised below as a finding)
+				}
 			}()
+			if s.Has("never-set") {
+				return "read-created-a-key", fmt.Sprintf("step %d (%s): after a series of typed reads (plain and Or-default getters, Bind) the store holds the key \"never-set\", which nobody ever set: a read is only a read", si, st.Op), stats
+			}
 		case "set-nil":
 			s.Set(k, nil)
 			ref[k] = nil
